@@ -9,7 +9,6 @@ import (
 	"go/types"
 	"sort"
 	"strings"
-
 )
 
 func init() { register("C16", true, checkC16) }
@@ -81,7 +80,6 @@ func mentionsIndexBy(info *types.Info, e ast.Node, idx types.Object) bool {
 	})
 	return found
 }
-
 
 func (a *c16) matching() {
 	c := a.c
